@@ -5,7 +5,7 @@ import ast, z3, itertools as _it
 from fractions import Fraction
 from . import logic as L
 from .values import *
-from .interp import Interp, GenResult, norm_num, LazyModule, LazyAttr
+from .interp import Interp, GenResult, LazyGen, norm_num, LazyModule, LazyAttr
 
 
 # ===================================================================== numbers
@@ -305,6 +305,7 @@ def truth(it: Interp, v):
         return v != 0
     if isinstance(v, ItemV):
         it.opacity_events.append(f"line {it.cur_line}: truth value of an item")
+        it.approximate = True       # realisable only by a presentation with names (0, ""): a counter-model is not replayable on plain numbers
         return it.branch(L.truthy(v.t))
     if isinstance(v, (PList, PSet)):
         return len(v.elems) > 0
@@ -551,6 +552,8 @@ def iterate(it: Interp, v, live=False):
     """concrete list of the elements of an iterable of concrete length"""
     if isinstance(v, PList):
         return v.elems if live else list(v.elems)
+    if isinstance(v, LazyGen):
+        return v.exhaust()
     if isinstance(v, tuple):
         return list(v)
     if isinstance(v, PSet):
@@ -1029,6 +1032,7 @@ def bi_isinstance(it, args, kw):
         names = tuple(sorted(getattr(c, "name", repr(c)) for c in (cls if isinstance(cls, tuple) else (cls,))))
         code = _TYPECODES.setdefault(names, len(_TYPECODES))
         it.opacity_events.append(f"line {it.cur_line}: isinstance() on an item")
+        it.approximate = True       # depends on the presentation of the items, not on their values
         return SV(L.istype(v.t, code))
     return class_matches(it, v, cls)
 
@@ -1081,6 +1085,13 @@ def bi_next(it, args, kw):
     if isinstance(g, Counter_):
         g.n += 1
         return g.n - 1
+    if isinstance(g, LazyGen):
+        x = g.next()
+        if x is not LazyGen.STOP:
+            return x
+        if len(args) > 1:
+            return args[1]
+        raise RaiseSig(ExcV("StopIteration"))
     if isinstance(g, GenResult):
         if g.pos < len(g.elems):
             g.pos += 1
@@ -1092,6 +1103,8 @@ def bi_next(it, args, kw):
 
 
 def bi_iter(it, args, kw):
+    if isinstance(args[0], LazyGen):
+        return args[0]
     return GenResult(iterate(it, args[0]))
 
 
@@ -1408,10 +1421,21 @@ def _narrow_float(name, eps):
 
 
 def np_array(it, args, kw):
-    it.trust("numpy.array(x): fresh array with the elements of x (a copy)")
+    it.trust("numpy.array(x) / numpy.asarray(x): fresh array with the elements of x (a copy)")
     r = NdArr(_as_numlist(it, args[0]))
     if getattr(args[0], "rel_eps", None):
         r.rel_eps = args[0].rel_eps
+    dt = kw.get("dtype", args[1] if len(args) > 1 else None)
+    if dt is not None:
+        eps = getattr(dt, "rel_eps", None)
+        if eps is None and not (isinstance(dt, TypeTag) and dt.name in ("float", "float64")):
+            raise Unsupported("numpy.array with a dtype the engine does not model")
+        if eps:
+            it.trust(f"numpy {dt.name}: a stored value is rounded with relative error <= {eps}")
+            r.rel_eps = eps
+            it.approximate = True
+            for k in range(r.n):          # conversion rounds every element
+                setitem(it, r, k, r.tolist()[k])
     return r
 
 
@@ -1482,6 +1506,9 @@ def ndarr_attr(it, v: NdArr, name):
         return _m("ndarray.sum", lambda it, a, k: bi_sum(it, [v], {}))
     if name == "tolist":
         return _m("ndarray.tolist", lambda it, a, k: PList(v.tolist()))
+    if name == "tobytes":
+        # the raw bytes of the array: a hashable value that is equal exactly when the stored numbers are equal, element by element
+        return _m("ndarray.tobytes", lambda it, a, k: ("bytes",) + tuple(v.tolist()))
     if name == "copy":
         return _m("ndarray.copy", lambda it, a, k: NdArr(v.tolist()))
     if name == "size":
@@ -1496,7 +1523,7 @@ def modelled_module(it: Interp, name):
     import sys as _sys
     if name == "numpy":
         m = ModuleV("numpy")
-        m.attrs.update({"zeros": Builtin("np.zeros", np_zeros), "array": Builtin("np.array", np_array), "append": Builtin("np.append", np_append),
+        m.attrs.update({"zeros": Builtin("np.zeros", np_zeros), "array": Builtin("np.array", np_array), "asarray": Builtin("np.asarray", np_array), "append": Builtin("np.append", np_append),
                         "isclose": Builtin("np.isclose", np_isclose), "floor": Builtin("np.floor", np_floor), "ceil": Builtin("np.ceil", np_ceil), "inf": INF,
                         "ndarray": TypeTag("ndarray", lambda it, v: isinstance(v, NdArr)), "int64": BUILTINS["int"], "float64": BUILTINS["float"],
                         "float32": _narrow_float("float32", Fraction(1, 2 ** 24)), "float16": _narrow_float("float16", Fraction(1, 2 ** 11)),
